@@ -2,10 +2,13 @@
 Line-protocol driver for the farm model and the C05 / C06 / C13(farm) monitors.
   model   <ops>              : prints one observation line per op line
   monitor <Cnn> <ops> <obs>  : evaluates Spec.Cnn on the implementation's observation stream
+`farm export` / `farm reimport` lines (genesis round trip, C12) are answered by
+`Irismod.FarmGenesis`; `monitor C12` judges them.
 -/
 import Irismod.Spec.C05
 import Irismod.Spec.C06
 import Irismod.Spec.C13Farm
+import Irismod.Spec.C12Farm
 
 namespace Driver.Farm
 open Irismod Irismod.Sdk Irismod.Farm Irismod.Line
@@ -143,6 +146,20 @@ def parseState (base : State) (t : List String) : Option State := do
   let rw ← parseCoinsSep ";" (arg t "reward")
   return { s with resp := rw }
 
+/-- the exported genesis document: pools in ITS OWN order, farmer records as a sorted set -/
+def showGenesis (g : FarmGenesis.Genesis) : String :=
+  let ps := g.pools.map fun (id, p) =>
+    s!"{id}|{p.creator}|{if p.desc = "" then "-" else p.desc}|{p.start}|{p.endH}|{p.last}|{if p.editable then 1 else 0}|{p.lpt}|{p.locked}|{if p.rules = [] then "-" else joinWith ";" (p.rules.map showRule)}"
+  let fs := g.farmers.map fun ((a, id), f) => s!"{a}|{id}|{f.locked}|{showCoins ";" f.debt}"
+  s!"seq={g.seq} fee={g.params.fee} tax={g.params.tax.raw} maxcat={g.params.maxcat} escrow=0 fiorder=ok " ++
+  s!"pools={if ps = [] then "-" else joinWith "," ps} farmers={showList fs}"
+
+def validateWord (g : FarmGenesis.Genesis) : String :=
+  match FarmGenesis.validateGenesis g with
+  | .ok _ => "ok"
+  | .error (.reject _) => "err"
+  | .error (.panic _) => "panic"
+
 def obsLine (res : String) (s : State) (withReward : Bool) : String :=
   s!"{res} reward={if withReward then showCoins ";" s.resp else "-"} {showState s}"
 
@@ -158,6 +175,15 @@ def modelLine (s : State) (line : String) : State × String :=
     | some s0 => (s0, obsLine "ok" s0 false)
     | none => (s, "bad-op")
   | _ =>
+    match t with
+    | ["farm", "export"] =>
+      let g := FarmGenesis.exportGenesis s
+      (s, s!"ok validate={validateWord g} {showGenesis g}")
+    | ["farm", "reimport"] =>
+      match FarmGenesis.importGenesis s (FarmGenesis.exportGenesis s) with
+      | .ok s' => (s', obsLine "ok" s' false)
+      | .error _ => (s, obsLine "panic" s false)
+    | _ =>
     match parseOp t with
     | none => (s, "bad-op")
     | some (.endBlocks n) =>
@@ -200,6 +226,11 @@ def runMonitor {σ : Type} (name : String) (init : State → σ)
         pre := { s with params := s0.params }
         st := init pre
       | _, _ => out.putStrLn s!"mon {name} FAIL clause=obs-parse line={i+1}"; fails := fails + 1
+    | ["farm", "export"] => pure ()
+    | ["farm", "reimport"] =>
+      match parseState pre o with
+      | some post => pre := post
+      | none => out.putStrLn s!"mon {name} FAIL clause=obs-parse line={i+1}"; fails := fails + 1
     | _ =>
       match parseOp t, parseState pre o with
       | some op, some post =>
@@ -212,6 +243,41 @@ def runMonitor {σ : Type} (name : String) (init : State → σ)
         pre := post
       | _, _ => out.putStrLn s!"mon {name} FAIL clause=parse line={i+1}"; fails := fails + 1
   out.putStrLn s!"mon {name} done steps={steps} fails={fails}"
+
+/-- C12 (farm slice): judges the `export` / `reimport` lines of the implementation's stream -/
+def runMonitorC12 (ops obs : Array String) : IO Unit := do
+  let out ← IO.getStdout
+  if ops.size ≠ obs.size then
+    out.putStrLn s!"mon C12 FAIL clause=stream-length ops={ops.size} obs={obs.size}"
+    return
+  let mut pre : State := {}
+  let mut fails := 0
+  let mut steps := 0
+  for i in [0:ops.size] do
+    let t := tokens ops[i]!
+    let o := tokens obs[i]!
+    match t with
+    | "farm" :: "reset" :: r =>
+      match parseReset r, parseState {} o with
+      | some s0, some s => pre := { s with params := s0.params }
+      | _, _ => out.putStrLn s!"mon C12 FAIL clause=obs-parse line={i+1}"; fails := fails + 1
+    | ["farm", "export"] =>
+      steps := steps + 1
+      for f in Spec.C12Farm.checkExport pre (arg o "validate") (arg o "escrow") (arg o "fiorder") do
+        out.putStrLn s!"mon C12 FAIL {f} line={i+1}"; fails := fails + 1
+    | ["farm", "reimport"] =>
+      match parseState pre o with
+      | some post =>
+        steps := steps + 1
+        for f in Spec.C12Farm.checkReimport pre (o.head?.getD "") post do
+          out.putStrLn s!"mon C12 FAIL {f} line={i+1}"; fails := fails + 1
+        pre := post
+      | none => out.putStrLn s!"mon C12 FAIL clause=obs-parse line={i+1}"; fails := fails + 1
+    | _ =>
+      match parseState pre o with
+      | some post => pre := post
+      | none => out.putStrLn s!"mon C12 FAIL clause=parse line={i+1}"; fails := fails + 1
+  out.putStrLn s!"mon C12 done steps={steps} fails={fails}"
 
 def readLines (p : String) : IO (Array String) := do
   let c ← IO.FS.readFile p
@@ -226,7 +292,8 @@ def main (args : List String) : IO UInt32 := do
     runMonitor "C06" Spec.C06.Mon.init Spec.C06.check (← readLines ops) (← readLines obs); return 0
   | ["monitor", "C13", ops, obs] =>
     runMonitor "C13" Spec.C13Farm.Mon.init Spec.C13Farm.check (← readLines ops) (← readLines obs); return 0
-  | _ => IO.eprintln "usage: model <ops> | monitor C05|C06|C13 <ops> <obs>"; return 2
+  | ["monitor", "C12", ops, obs] => runMonitorC12 (← readLines ops) (← readLines obs); return 0
+  | _ => IO.eprintln "usage: model <ops> | monitor C05|C06|C12|C13 <ops> <obs>"; return 2
 
 end Driver.Farm
 
